@@ -20,7 +20,9 @@ func TestVerif(t *testing.T) {
 		os.Stdout.Sync()
 		os.Exit(code)
 	case "shard":
-		os.Exit(shardMain(t))
+		if code := shardMain(t); code != 0 {
+			os.Exit(code)
+		}
 	case "replay":
 		os.Exit(replayMain(t))
 	case "gen":
